@@ -13,6 +13,10 @@ RULE = ('the generator of C05 (random World histories, 1-25 ops, 2-5 unrelated c
         'the automatic ones) with dispatch_enabled toggles (10 % of ops, about 40 % of all '
         'ops run while disabled), probe dispatches, clear() only while enabled; the callback '
         'log (callback, instance, entity argument, world-is-this-world) is recorded per op; '
+        'in 30 % of the cases one or two instances raise a marker exception from on_add / '
+        'on_remove when the release of postponed events delivers them (the enabling assignment '
+        'raises, further enabling assignments follow); callbacks also query the world '
+        '(get, get_component(s), has_component, entity_exists, entities) and must not raise; '
         'the known-finding patterns K1-K3 are never generated; non-trivial = at least 3 '
         'state-changing ops and one callback')
 TRUSTED = [
@@ -23,7 +27,9 @@ TRUSTED = [
     'the harness keeps every instance alive (weak references never die)',
     'CPython dict / set semantics',
 ]
-ASSUMPTIONS = ['component callbacks do not call back into the world (re-entrancy is C03/C04)',
+ASSUMPTIONS = ['component callbacks do not change the world (C05 covers re-entrant callbacks) and do '
+               'not toggle dispatching during a release (C04); a callback raising inside an operation '
+               'other than the release is not generated',
                'exact component types (subtype walks are C06)',
                'every component instance sits in at most one slot at a time and create_entity '
                'never overwrites a slot (otherwise known findings K2/K3)']
